@@ -202,32 +202,60 @@ read back from a loaded model. -/
 (`clusters = true`) are indexed by `spike_clusters` and have one entry per id from 0 to the HIGHEST cluster id once
 anything was curated, one entry per TEMPLATE otherwise (cluster ids are then template ids, including the ids of
 templates — the highest one too — that no spike uses); the per-template ones are indexed by `spike_templates`, one
-per template.  The waveform array, the declared count `n_wav` and this number agree. -/
-theorem useArrays_spec (s : Stored) (clusters : Bool) :
-    (useArrays s clusters).1.length = idCount s clusters ∧ (useArrays s clusters).2.2 = idCount s clusters ∧
-    (useArrays s clusters).2.1 = assignment s clusters :=
-  Lemmas.useArrays_spec s clusters
+per template.  The waveform array, the declared count `n_wav` and this number agree.
+The content is the PER-CLUSTER case (the array and the count come out of `C08.loadClusters`); the per-template case
+holds by definition of `useArrays` and is stated separately as `useArrays_templates_def`. -/
+theorem useArrays_clusters_spec (s : Stored) :
+    (useArrays s true).1.length = (if s.sc ≠ s.st then s.sc.foldl max 0 + 1 else s.templates.length) ∧
+    (useArrays s true).2.2 = (if s.sc ≠ s.st then s.sc.foldl max 0 + 1 else s.templates.length) ∧
+    (useArrays s true).2.1 = s.sc ∧
+    idCount s true = (if s.sc ≠ s.st then s.sc.foldl max 0 + 1 else s.templates.length) :=
+  Lemmas.useArrays_clusters_spec s
 
-/-- `get_amplitudes_true` never fails on the count mismatch (`n_wav` vs. the waveform array) in either id space. -/
-theorem amplitudesTrueUse_defined (s : Stored) (clusters : Bool) (f : Rat) :
+/-- Per template, BY DEFINITION of the model (`rfl`; no content beyond `useArrays` mirroring model.py:1140-1147): the
+stored templates, `spike_templates`, one id per template. -/
+theorem useArrays_templates_def (s : Stored) :
+    useArrays s false = (s.templates, s.st, s.templates.length) ∧ idCount s false = s.templates.length ∧
+    assignment s false = s.st :=
+  ⟨rfl, by simp [idCount], rfl⟩
+
+/-- `get_amplitudes_true` never fails on the count mismatch (`n_wav` vs. the waveform array) in either id space.
+`hin`: every spike's id is below the number of ids of the space — otherwise `templates_amps_au[spikes]`
+(model.py:1164) raises IndexError and there is no result (`amplitudesTrueUse_none`; the model used to read 0 through
+`getD` there).  On a dataset that loads `hin` holds (`assignment_lt_idCount`). -/
+theorem amplitudesTrueUse_defined (s : Stored) (clusters : Bool) (f : Rat)
+    (hin : ∀ t ∈ assignment s clusters, t < idCount s clusters) :
     amplitudesTrueUse s clusters f = some (amplitudesTrue (useData s clusters) f) :=
-  Lemmas.amplitudesTrueUse_defined s clusters f
+  Lemmas.amplitudesTrueUse_defined s clusters f hin
+
+/-- A spike whose id is beyond the id space: no result (real code: IndexError at model.py:1164). -/
+theorem amplitudesTrueUse_none (s : Stored) (clusters : Bool) (f : Rat)
+    (hout : ∃ t ∈ assignment s clusters, idCount s clusters ≤ t) : amplitudesTrueUse s clusters f = none :=
+  Lemmas.amplitudesTrueUse_none s clusters f hout
+
+/-- `hin` holds in both id spaces as soon as every spike's TEMPLATE exists (`hst`; the loader fails otherwise):
+cluster ids are below `max(spike_clusters) + 1` after curation and are the template ids before. -/
+theorem assignment_lt_idCount (s : Stored) (clusters : Bool) (hst : ∀ t ∈ s.st, t < s.templates.length) :
+    ∀ t ∈ assignment s clusters, t < idCount s clusters :=
+  Lemmas.assignment_lt_idCount s clusters hst
 
 /-- THE NaN CLAUSE on the stored arrays, both id spaces, any unit factor: for every id `t` below the number of ids
 of the space (so also the highest one) the returned per-id amplitude is the mean of the returned spike amplitudes
 over the member spikes; it is NaN EXACTLY when `t` does not occur in the STORED assignment (the set of spike-less
 ids is computed from `spike_templates.npy` / `spike_clusters.npy`, not taken from the loaded model's `nan_idx`),
 and then the returned waveform is NaN too.  The defaults `some 0` / `some []` show that index `t` exists.
-(`ha`: amplitudes and assignment of different length make the real code raise ValueError.) -/
+(`ha`: amplitudes and assignment of different length make the real code raise ValueError.  `hin`: a spike id beyond the
+id space makes it raise IndexError, see `amplitudesTrueUse_defined`.) -/
 theorem ampsUse_spec (s : Stored) (clusters : Bool) (f : Rat)
-    (ha : s.amplitudes.length = (assignment s clusters).length) (t : Nat) (ht : t < idCount s clusters) :
+    (ha : s.amplitudes.length = (assignment s clusters).length)
+    (hin : ∀ t ∈ assignment s clusters, t < idCount s clusters) (t : Nat) (ht : t < idCount s clusters) :
     ∃ sa resc av, amplitudesTrueUse s clusters f = some (sa, resc, av) ∧
       sa.length = (assignment s clusters).length ∧ resc.length = idCount s clusters ∧
       av.length = idCount s clusters ∧
       av.getD t none = meanOver (assignment s clusters) sa t ∧
       (av.getD t (some 0) = none ↔ t ∉ assignment s clusters) ∧
       (t ∉ assignment s clusters → resc.getD t (some []) = none) :=
-  Lemmas.ampsUse_spec s clusters f ha t ht
+  Lemmas.ampsUse_spec s clusters f ha hin t ht
 
 /-- The same at `Data` level: NaN exactly for the ids without a spike. -/
 theorem ampsVUnit_none_iff (d : Data) (f : Rat) (ha : d.amplitudes.length = d.spikes.length) (t : Nat)
@@ -238,8 +266,10 @@ theorem ampsVUnit_none_iff (d : Data) (f : Rat) (ha : d.amplitudes.length = d.sp
 templates, or the cluster waveforms of C08 (`C08.loadClusters`: template waveform / count-weighted mean / zeros for
 a curated id without spikes / the template array itself when nothing was curated) — one entry per id, also for ids
 without spikes (no NaN there: the statement's NaN clause is about amplitudes).  `hst`: a spike of a template beyond
-the template array makes the real loader fail. -/
-theorem summariesUse_spec (s : Stored) (clusters : Bool) (rate : Rat)
+the template array makes the real loader fail.  `hr : 0 < rate` as in `duration_ms_spec` (`TemplateModel.__init__`
+asserts `sample_rate > 0`): the last conjunct, entry × rate = samples × 1000, is false at rate 0, where the model's
+`x / 0 = 0` would make the `/ rate` form hold for the wrong reason. -/
+theorem summariesUse_spec (s : Stored) (clusters : Bool) (rate : Rat) (hr : 0 < rate)
     (hst : ∀ t ∈ s.st, t < s.templates.length) (hW : ∀ M ∈ s.templates, Rect M s.ns s.nc)
     (hns : 0 < s.ns) (hnc : 0 < s.nc) (t : Nat) (ht : t < idCount s clusters) :
     (channelsUse s clusters).length = idCount s clusters ∧
@@ -248,12 +278,13 @@ theorem summariesUse_spec (s : Stored) (clusters : Bool) (rate : Rat)
       IsFirstMax (chan ((useArrays s clusters).1.getD t []) p) iM ∧
       IsFirstMin (chan ((useArrays s clusters).1.getD t []) p) im ∧
       (channelsUse s clusters).getD t 0 = p ∧
-      (durationsUse s clusters rate).getD t 0 = (((iM : Int) - (im : Int) : Int) : Rat) * 1000 / rate :=
-  Lemmas.summariesUse_spec s clusters rate hst hW hns hnc t ht
+      (durationsUse s clusters rate).getD t 0 = (((iM : Int) - (im : Int) : Int) : Rat) * 1000 / rate ∧
+      (durationsUse s clusters rate).getD t 0 * rate = (((iM : Int) - (im : Int) : Int) : Rat) * 1000 :=
+  Lemmas.summariesUse_spec s clusters rate hr hst hW hns hnc t ht
 
-/-- The one-pass evaluation used by the driver is, component by component, the definitions the theorems above are
-about. -/
-theorem summariesUse_eq (s : Stored) (clusters : Bool) (f rate : Rat) :
+/-- Bookkeeping, true by unfolding (`rfl`) — NOT a statement about the code: the one-pass evaluation used by the driver
+is, component by component, the definitions the theorems above are about. -/
+theorem summariesUse_unfold (s : Stored) (clusters : Bool) (f rate : Rat) :
     summariesUse s clusters f rate =
       (useArrays s clusters, amplitudesTrueUse s clusters f, channelsUse s clusters, durationsUse s clusters rate) :=
   rfl
@@ -379,10 +410,18 @@ example : ∃ sa resc av, amplitudesTrueUse exS true (5/2) = some (sa, resc, av)
       av.getD 2 none = meanOver (assignment exS true) sa 2 ∧
       (av.getD 2 (some 0) = none ↔ 2 ∉ assignment exS true) ∧
       (2 ∉ assignment exS true → resc.getD 2 (some []) = none) :=
-  ampsUse_spec exS true (5/2) (by decide) 2 (by decide)
+  ampsUse_spec exS true (5/2) (by decide) (by decide) 2 (by decide)
+-- a spike of id 7 with 3 templates: no result (the real code raises IndexError); `hin` on the loadable datasets
+example : amplitudesTrueUse { exS with st := [0, 0, 7], sc := [0, 0, 7] } false 1 = none ∧
+    (∀ t ∈ assignment exC true, t < idCount exC true) ∧ (∀ t ∈ assignment exS false, t < idCount exS false) := by
+  decide +kernel
+example : (useArrays exC true).1.length = 5 ∧ (useArrays exC true).2.2 = 5 ∧ (useArrays exS true).1.length = 3 := by
+  decide +kernel
+-- entry × rate = samples × 1000 at 30 kHz (hr): template 0 of exS, arg-max 0, arg-min 1
+example : (durationsUse exS false 30000).getD 0 0 * 30000 = ((0 - 1 : Int) : Rat) * 1000 := by decide +kernel
 example : 2 ∉ assignment exS true ∧ 3 ∉ assignment exC true ∧ 4 ∈ assignment exC true := by decide
 example : (channelsUse exC true).length = idCount exC true :=
-  (summariesUse_spec exC true 1000 (by decide) (by decide) (by decide) (by decide) 4 (by decide)).1
+  (summariesUse_spec exC true 1000 (by decide) (by decide) (by decide) (by decide) (by decide) 4 (by decide)).1
 example : templatesProbes [0, 7] exS.templates = [0, 7, 0] := by decide +kernel
 example : (templatesProbes [0, 7] exS.templates).length = exS.templates.length :=
   (templatesProbes_spec [0, 7] exS.templates 1 2 2 (by decide) ⟨by decide, by decide⟩ (by decide) (by decide) rfl).1
